@@ -370,6 +370,33 @@ impl Runner {
     }
 
     fn exec_inner(&mut self, op: &Op) -> String {
+        // A CA under the trust anchor is not given up while its requests
+        // wait for the off-line signer: the certificate the signer issues
+        // afterwards would have no one left to publish under it or to
+        // revoke it (the operator of the trust anchor would have to remove
+        // the child; nothing in Krill can).
+        if self.ext.signer_offline {
+            let under_ta = |me: &Runner, inst: usize, name: &str| {
+                me.model.ca(inst, name).map(|ca| {
+                    ca.parents.values().any(|p| p.parent_ca == "ta")
+                }).unwrap_or(false)
+            };
+            match op {
+                Op::DeleteCa { inst, name }
+                    if under_ta(self, *inst, name) =>
+                {
+                    return "skip:signer-offline".into()
+                }
+                Op::RemoveParent { inst, name, parent }
+                    if self.model.ca(*inst, name).and_then(|ca| {
+                        ca.parents.get(parent)
+                    }).map(|p| p.parent_ca == "ta").unwrap_or(false) =>
+                {
+                    return "skip:signer-offline".into()
+                }
+                _ => { }
+            }
+        }
         // An instance that is down can neither be operated nor reached.
         if !matches!(op, Op::Heal { .. })
             && op.instances().iter().any(|i| {
@@ -1802,6 +1829,17 @@ impl Runner {
         // has caught up.
         if self.world.insts.iter().any(|i| !i.is_up()) || crate::net::is_cut() {
             self.stat("caught_up_during_partition");
+            return
+        }
+        // While the trust anchor signer is away, requests of the trust
+        // anchor's children (certificates, revocations) wait at the proxy:
+        // background work cannot catch up in the sense of C01-C03 until
+        // the signing session has taken place. (The key-roll invariants of
+        // C04 hold at every instant and are evaluated all the same.)
+        if self.ext.signer_offline
+            && (self.oracles.c01 || self.oracles.c02 || self.oracles.c03)
+        {
+            self.stat("caught_up_while_signer_offline");
             return
         }
         let excluded = self.excluded_dirs(repo_inst);
